@@ -82,7 +82,7 @@ func TestC10(t *testing.T) {
 
 func TestC08(t *testing.T) {
 	spec := &GenSpec{Prop: "C08", Backings: allBackings, MaxOps: 40, Holds: true, Reopen: true, Merge: true,
-		KeyPoolMax: 4, Children: exclChildren("C08"), ChildPct: 55, Compaction: []int{0, 1, 1, 2}}
+		KeyPoolMax: 4, Children: exclChildren("C08"), ChildPct: 55, BigBatches: true, Compaction: []int{0, 1, 1, 2}}
 	applyExclusions(spec)
 	histCheck(t, spec, oraclesFor[spec.Prop],
 		"histories over 1-4 keys with Set/Del/Merge under an order- and structure-sensitive operator ('(' existing '|' operand ')'), with merger cycles, held persister rounds, partial/full compaction, reopen, CachePersisted, application lower level; every read (snapshot Get + iteration after every op, store / lower-level content after every completed round, content after reopen) must equal the model fold. Non-trivial: a Merge operation and an older operation on the same key sit in different sections at a read moment. Distinct = distinct program hash.",
@@ -239,7 +239,7 @@ func hostileInProgram(p *Program) (hostile, boundary, limit, reject bool) {
 
 func TestC19(t *testing.T) {
 	spec := &GenSpec{Prop: "C19", Backings: []string{"mem", "store", "store", "store", "ll"}, MaxOps: 25, Holds: true, Reopen: true,
-		Hostile: true, Alloc: true, Oversize: true, OversizeValue: os.Getenv("VERIF_TIER") == "thorough", Merge: true,
+		Hostile: true, Alloc: true, Oversize: true, OversizeValue: os.Getenv("VERIF_TIER") == "thorough", Merge: true, BigBatches: true,
 		Compaction: []int{0, 1, 2}}
 	Col.SetProp("C19", "histories with keys/values from: tiny alphabet incl. the empty key (alone in a batch too), arbitrary bytes, 0x00/0xFF, the store's magic markers (also as footer-header look-alikes with version and length words), values of 1, 4076, 4095-4097 and 8192 bytes (some ending in the magic), the 2^24-1 byte key (accepted) and 2^24-byte keys / 2^28-byte values (thorough) that must be rejected with ErrKeyTooLarge / ErrValueTooLarge in the middle of a batch; operations built through Alloc/AllocSet/AllocDel/AllocMerge mixed with plain calls. Each program runs twice: as generated and as its twin (plain<->Alloc swapped, DeferredSort and CachePersisted flipped). After every op the collection, after every completed round the store, and at the end the reopened directory are compared byte-exactly and in order with the reference. Non-trivial: the program contains a magic look-alike, a page-boundary-sized value or a limit-sized key AND went through persistence and a reopen. Distinct = distinct program hash.")
 	rapid.Check(t, func(rt *rapid.T) {
@@ -365,6 +365,11 @@ func TestC06(t *testing.T) {
 	spec := &GenSpec{Prop: "C06", Backings: []string{"store"}, MaxOps: 16, Reopen: true, BigBatches: true,
 		Children: exclChildren("C06"), Compaction: []int{0, 1, 2, 2}}
 	applyExclusions(spec)
+	if spec.NoStructOnlyEmpty {
+		// with injected faults the store can hold nothing although key
+		// operations were executed: the open finding F14e needs the broad exclusion
+		spec.NoStructOnly = true
+	}
 	thorough := os.Getenv("VERIF_TIER") == "thorough"
 	Col.SetProp("C06", "a generated store-backed workload (batches, persistence rounds incl. partial / full / idle compactions, drain+reopen) runs fault-free once to count its file operations, then again once per injected fault: site = index of a file operation (quick: 12 generated sites per workload; thorough: every site up to 150) x kind by the operation hit (create/open error, WriteAt error, short write of 0% / 50% with io.ErrShortWrite, Sync error, Stat error) x shape (single, burst of 2-5 consecutive operations, persistent until a generated later step). After every step: collection == reference; Store.Snapshot() == the reference prefix covered by the rounds that reported success (a round that ends without OnError must really contain its batches - checked by reading everything); after a failed round (surfaced through OnError, which the controller requires) a copy of the directory must reopen to a batch prefix no shorter than that; once faults stop, draining must reach the full reference in the store and after reopen. evaluations = faulted runs. Non-trivial: the fault was actually hit (wrapper counter). Distinct = distinct (program, fault).")
 	rapid.Check(t, func(rt *rapid.T) {
